@@ -6,7 +6,7 @@ handlers for C14 (`harness/h_params.cpp`): every answer is computed from the tab
 (`Amgcl.Generated.paramTables` / `enumTables`) with the property-tree semantics of `Amgcl/Model/PTree.lean`.
 
 * `params_fields S`            → `n name:kind …` (sorted)           the data members the translator found
-* `params_roundtrip S f v`     → `f=v` | `f=default` | `not-exported` | `ill-typed`
+* `params_roundtrip S f v`     → `f=v` | `f=default` | `not-exported` | `ill-typed` | `invalid` (enum member, unknown name)
                                  construct from `{f: v}`, export with `get`, read `f` back
 * `params_export_keys S`       → `n k₁ … kₙ`                        value keys of the default-constructed export, in order
 * `params_unknown S k`         → `reported` | `accepted` | `ill-typed`
@@ -22,6 +22,11 @@ open Amgcl Amgcl.Driver Amgcl.Params Amgcl.Generated
 
 def findTable (s : String) : Option ParamTable := paramTables.find? (·.name = s)
 def findEnum (s : String) : Option EnumTable := enumTables.find? (·.name = s)
+
+/-- `preconditioner::side::type` → the enum table `preconditioner::side` -/
+def enumOfCtype (ctype : String) : Option EnumTable :=
+  let parts := ctype.splitOn "::"
+  if parts.getLast? = some "type" then findEnum ("::".intercalate parts.dropLast) else findEnum ctype
 
 def dflt : String → String := fun _ => "default"
 
@@ -54,6 +59,12 @@ def handle (op : String) (args : List String) : Option String :=
         match t.kindOf f with
         | none => badInput
         | some Kind.child => badInput
+        | some Kind.enum =>
+          -- the legal texts of an enum member are the names its run-time enum parses
+          if !t.wellTyped then "ill-typed" else
+          match (t.fields.find? (·.name = f)).bind (fun fd => enumOfCtype fd.ctype) with
+          | none => badInput
+          | some E => if (E.parse v).isNone then "invalid" else roundtrip t f v
         | some _ => if !t.wellTyped then "ill-typed" else roundtrip t f v
   | "params_export_keys" => withArgs tok args fun s =>
       match findTable s with
